@@ -182,7 +182,15 @@ def run_case(case, ctx):
                 order = int(p[3]) if len(p) > 3 else 4
                 # two propagators sharing one tensor must give the same result for the same state
                 sig = "prop:" + p[1].rstrip("2") + ":" + ":".join(p[2:]) + "|Nref=%d" % pr.Nref
-                ev = pr.propagate(states[int(p[2])], method="short-exp-%d" % order)
+                # the same call made inside the eigenbasis context of the propagator's Hamiltonian is the same computation:
+                # its result, read after the context is left, is the same trajectory
+                inside = (p[1] in ("A", "B")) and bool(rng.random() < 0.35)
+                if inside:
+                    ctx.event("calls_inside_a_basis_context")
+                    with qr.eigenbasis_of(pr.Hamiltonian):
+                        ev = pr.propagate(states[int(p[2])], method="short-exp-%d" % order)
+                else:
+                    ev = pr.propagate(states[int(p[2])], method="short-exp-%d" % order)
                 return sig, arr(ev.data).ravel()
             if kind == "eU:calc":
                 eU.calculate(show_progress=False)
